@@ -44,15 +44,17 @@ pub(crate) fn take1<E>(input: Input<'_>) -> (r: ParseResult<'_, u8, E>)
 
 pub open spec fn all_cont(s: Seq<u8>, k: int) -> bool { forall|j: int| 0 <= j < k ==> #[trigger] s[j] >= 0x80 }
 
+#[verifier::loop_isolation(false)]
 pub(crate) fn leb128_u64<E>(input: Input<'_>) -> (r: ParseResult<'_, u64, E>)
 where
     E: From<Error>,
     requires input.wf(),
     ensures
         // consumes 1..=10 bytes, the last one without continuation bit, the others with it
-        r matches Ok((i, v)) ==> exists|k: int| 1 <= k <= 10 && #[trigger] input.advanced(i, k) && all_cont(input.bytes@, k - 1) && input.bytes[k - 1] < 0x80 && i.wf(),
+        r matches Ok((i, v)) ==> ({ let k = i.position - input.position; 1 <= k <= 10 && input.advanced(i, k) && all_cont(input.bytes@, k - 1) && input.bytes[k - 1] < 0x80 && i.wf() }),
         // Incomplete exactly when the input ends inside an encoding
-        (r matches Err(ParseError::Incomplete(_))) <==> (input.bytes.len() < 10 && all_cont(input.bytes@, input.bytes.len() as int)),
+        (r matches Err(ParseError::Incomplete(_))) ==> (input.bytes.len() < 10 && all_cont(input.bytes@, input.bytes.len() as int)),
+        (input.bytes.len() < 10 && all_cont(input.bytes@, input.bytes.len() as int)) ==> (r matches Err(ParseError::Incomplete(_))),
 {
     let mut res = 0;
     let mut shift = 0;
@@ -60,15 +62,20 @@ where
     let ghost orig = input;
     let ghost mut k: int = 0;
 
+    proof { assert(orig.bytes@.subrange(0, orig.bytes.len() as int) =~= orig.bytes@); }
     loop
         invariant
             0 <= k <= 9, shift == 7 * k, orig.wf(), input.wf(),
             orig.advanced(input, k), all_cont(orig.bytes@, k),
         decreases 10 - k,
     {
+        let ghost prev = input;
+        proof { assert(prev.bytes.len() == orig.bytes.len() - k); }
         let (i, byte) = take1(input)?;
         input = i;
         proof {
+            assert(byte == orig.bytes[k]);
+            assert(input.bytes@ =~= orig.bytes@.subrange(k + 1, orig.bytes.len() as int));
             assert(byte & 0x7F <= 0x7f) by (bit_vector);
             assert((byte & 0x80) == 0 <==> byte < 0x80) by (bit_vector);
         }
@@ -76,6 +83,7 @@ where
         shift += 7;
         proof { k = k + 1; }
 
+        proof { assert(orig.bytes@[k - 1] == byte); assert(orig.advanced(input, k)); assert(all_cont(orig.bytes@, k - 1)); assert(1 <= k <= 10); assert(input.wf()); assert((byte & 0x80) == 0 ==> orig.bytes[k - 1] < 0x80); }
         if (byte & 0x80) == 0 {
             if shift > 64 && byte > 1 {
                 return Err(ParseError::Error(Error::Leb128TooLarge.into()));
